@@ -264,6 +264,25 @@ def filter_case(case):
                 res['failures'].append(('C07', f'literal(s) still in the object database after the rewrite: {left[:4]}'))
             count('c07-literals-claimed' if (bl or ml) else 'c07-no-compatible-literal')
             res['dist']['c07-literals'] = res['dist'].get('c07-literals', 0) + len(bl) + len(ml)
+        # a second, neutral run in the same repository: the maps of the first run are lying around (C09), nothing may move (C08)
+        if case['mode'] != 'rules' and case['id'] % 2 == 0 and after_refs:
+            nopts = 'inv=0;paths=-;globs=-;ren=-;tagren=none;brren=none;pe=never;pd=never;noff=0;marks=0'
+            s_before2 = s_after
+            refs2, head2 = after_refs, head_of(repo)
+            rc2, _, err2, _ = run_tool(repo, ['--force', '--prune-empty', 'never', '--prune-degenerate', 'never'])
+            if rc2 != 0:
+                res['failures'].append(('C10', f'a second, neutral run in the same repository exited {rc2}: {err2.decode("utf-8", "replace")[-200:]}'))
+                return res
+            count('second-run-in-the-same-repository')
+            cmap2, rmap2 = rd('commit-map'), rd('ref-map')
+            if len(cmap2) < len(cmap):
+                count('second-run-with-a-shorter-commit-map')
+            ans = model().ask(f'oracle-e2e {nopts} {enhex(s_before2)} {enhex(export(repo))} {enhex(cmap2)} {enhex(rmap2)}')
+            if ans.startswith('FAIL'):
+                for part in ans[5:].split(' || '):
+                    res['failures'].append((part.split(':')[0].strip(), '(second run in the same repository) ' + part))
+            if model().ask(f'guards {nopts} {enhex(s_before2)}') == 'ok' and (refs(repo) != refs2 or head_of(repo) != head2):
+                res['failures'].append(('C08', '(second run in the same repository) a neutral run changed refs or HEAD'))
         return res
     except Exception as e:
         res['error'] = repr(e)[:400]
@@ -346,6 +365,27 @@ def _strip_ref_lines(stream):
     return b''.join(out)
 
 
+def _drop_get_mark(stream):
+    """the importer's input without the tool's `get-mark :N` requests (payloads are skipped by their byte count)"""
+    out, i, n = [], 0, len(stream)
+    while i < n:
+        j = stream.find(b'\n', i)
+        j = n if j < 0 else j + 1
+        line = stream[i:j]
+        i = j
+        if line.startswith(b'data '):
+            try:
+                k = int(line[5:].strip())
+            except ValueError:
+                k = 0
+            out.append(line); out.append(stream[i:i + k]); i += k
+            continue
+        if line.startswith(b'get-mark :'):
+            continue
+        out.append(line)
+    return b''.join(out)
+
+
 def dryrun_case(case):
     root = tempfile.mkdtemp(prefix='frrs-dry-')
     res = dict(id=case['id'], failures=[], dist={})
@@ -364,6 +404,9 @@ def dryrun_case(case):
         cli = [a.replace('@AUX@', aux) for a in case['cli']]
         extra = []
         k = case['id']
+        if k % 5 == 3 and refs(repo):
+            git(repo, 'checkout', '-q', '--detach', check=False)
+            count('detached-head')
         if k % 2 == 0: extra.append('--force')
         if k % 5 == 1: extra.append('--backup')
         if k % 7 == 2: extra += ['--sensitive', '--no-fetch'] if variant != 0 else []
@@ -390,7 +433,16 @@ def dryrun_case(case):
             copy = os.path.join(root, 'copy')
             shutil.copytree(repo, copy, symlinks=True)
             shutil.rmtree(os.path.join(copy, '.git', 'filter-repo'), ignore_errors=True)
-            rc2, _, err2, _ = run_tool(copy, extra + cli + (['--force'] if '--force' not in extra else []))
+            tee_path = os.path.join(root, 'imported.stream')
+            env2 = dict(GIT_ENV, PATH=make_shim(root) + os.pathsep + GIT_ENV.get('PATH', os.environ.get('PATH', '')), FRRS_SHIM_MODE='plain', FRRS_SHIM_TEE=tee_path,
+                        FRRS_SHIM_IN='65536', FRRS_SHIM_OUT='65536')
+            rc2, _, err2, _ = run_tool(copy, extra + cli + (['--force'] if '--force' not in extra else []), env=env2)
+            if os.path.exists(tee_path) and rc2 == 0:
+                imported = _drop_get_mark(open(tee_path, 'rb').read())
+                real_file = os.path.join(copy, '.git', 'filter-repo', 'fast-export.filtered')
+                if os.path.exists(real_file) and imported != open(real_file, 'rb').read():
+                    res['failures'].append(('C11', f'[imported] the bytes fed to git fast-import differ from fast-export.filtered of the same run (options {extra + cli})'))
+                count('imported-bytes-compared')
             fpath = os.path.join(copy, '.git', 'filter-repo', 'fast-export.filtered')
             real_filtered = open(fpath, 'rb').read() if os.path.exists(fpath) else None
             if real_filtered is None:
@@ -578,7 +630,11 @@ def sanity_case(case):
     try:
         src = os.path.join(root, 'src')
         subprocess.run(['git', 'init', '-q', '-b', 'main', src], check=True, env=GIT_ENV)
-        sh = lambda d, s: subprocess.run(['bash', '-c', 'set -e\n' + s], cwd=d, check=True, env=GIT_ENV, stdout=subprocess.DEVNULL, stderr=subprocess.DEVNULL)
+        env_id = dict(GIT_ENV)
+        if case.get('latin1'):
+            # a committer name that is not valid UTF-8 (Latin-1 "Jörg"): reflog files then hold a non-UTF-8 byte
+            env_id['GIT_COMMITTER_NAME'] = env_id['GIT_AUTHOR_NAME'] = 'J\udcf6rg'
+        sh = lambda d, s: subprocess.run(['bash', '-c', 'set -e\n' + s], cwd=d, check=True, env=env_id, stdout=subprocess.DEVNULL, stderr=subprocess.DEVNULL)
         sh(src, 'git config user.name T; git config user.email t@e; echo a > a; echo b > b; git add .; git commit -q -m c1; echo c >> a; git commit -q -am c2; git branch side HEAD~1; git tag v1')
         bare = case['bare']
         repo = os.path.join(root, 'clone.git' if bare else 'clone')
@@ -591,13 +647,13 @@ def sanity_case(case):
         for v in applied:
             if v == 'stash' and not bare: sh(repo, 'echo s >> b; git stash -q')
         for v in applied:
-            if bare and v in ('unstaged', 'staged', 'untracked', 'stash', 'worktree'):
+            if bare and v in ('unstaged', 'staged', 'untracked', 'stash'):
                 continue
             if v == 'unstaged': sh(repo, 'echo x >> a')
             elif v == 'staged': sh(repo, 'echo y > staged.txt; git add staged.txt')
             elif v == 'untracked': sh(repo, 'echo z > untracked.txt')
             elif v == 'reflog':
-                if bare: sh(repo, 'h=$(git rev-parse refs/heads/main); mkdir -p logs/refs/heads; printf "%s %s T <t@e> 1 +0000\\tx\\n%s %s T <t@e> 2 +0000\\ty\\n" $h $h $h $h > logs/refs/heads/main')
+                if bare: sh(repo, 'h=$(git rev-parse refs/heads/main); mkdir -p logs/refs/heads; printf "%s %s $GIT_COMMITTER_NAME <t@e> 1 +0000\\tx\\n%s %s $GIT_COMMITTER_NAME <t@e> 2 +0000\\ty\\n" $h $h $h $h > logs/refs/heads/main')
                 else: sh(repo, 'h=$(git rev-parse refs/remotes/origin/main); p=$(git rev-parse "$h~1"); git update-ref -m back refs/remotes/origin/main $p; git update-ref -m forth refs/remotes/origin/main $h')
             elif v == 'worktree': sh(repo, 'git worktree add -q --detach ../wt HEAD')
             elif v == 'remote': sh(repo, 'git remote add other https://example.invalid/x.git')
@@ -620,7 +676,7 @@ def sanity_case(case):
         if observed != predicted:
             res['failures'].append(('C12', f'violations {applied} (bare={bare}): the model of the pre-flight predicts {predicted}, the tool answered {observed}; facts {fstr}'))
         # the statement itself: any applied violation must be refused; a pristine clone accepted
-        effective = [v for v in applied if not (bare and v in ('unstaged', 'staged', 'untracked', 'stash', 'worktree', 'unpushed'))]
+        effective = [v for v in applied if not (bare and v in ('unstaged', 'staged', 'untracked', 'stash', 'unpushed'))]
         if effective and rc == 0:
             res['failures'].append(('C12', f'violations {effective} (bare={bare}) were accepted without --force'))
         if not applied and rc != 0:
@@ -1105,6 +1161,21 @@ MODE=${FRRS_SHIM_MODE:-chunk}
 IN=${FRRS_SHIM_IN:-113}
 OUT=${FRRS_SHIM_OUT:-251}
 [ -n "$FRRS_SHIM_LOG" ] && echo "$*" >> "$FRRS_SHIM_LOG"
+# fault injection (C10): the importer sees EOF / a bogus command after CUT bytes, or the exporter's output ends after CUT bytes
+if [[ " $* " == *" fast-import "* ]] && { [ "$MODE" = cutimport ] || [ "$MODE" = poisonimport ]; }; then
+  # git itself replaces the shim process (no wrapper keeps its stdout open after it died); the relay feeding its stdin
+  # forwards every chunk at once (head -c would hold request lines back in its stdio buffer) and logs what happened
+  if [ "$MODE" = cutimport ]; then exec "$R" "$@" < <(python3 "$(dirname "$0")/relay.py" "$FRRS_SHIM_CUT")
+  else exec "$R" "$@" < <(python3 "$(dirname "$0")/relay.py" "$FRRS_SHIM_CUT" poison); fi
+fi
+if [[ " $* " == *" fast-import "* ]] && [ -n "$FRRS_SHIM_TEE" ]; then
+  exec "$R" "$@" < <(tee "$FRRS_SHIM_TEE")          # what the importer is really fed (C11)
+fi
+if [[ " $* " == *" fast-export "* ]] && [ "$MODE" = cutexport ]; then
+  "$R" "$@" | FRRS_RELAY_ROLE=fast-export python3 "$(dirname "$0")/relay.py" "$FRRS_SHIM_CUT"
+  [ -n "$FRRS_SHIM_LOG" ] && echo "FAULT fast-export rc=${FRRS_SHIM_RC:-1}" >> "$FRRS_SHIM_LOG"
+  exit ${FRRS_SHIM_RC:-1}
+fi
 case "$MODE" in slow) sleep 0.05 ;; *) sleep 0.01 ;; esac
 if [ -p /dev/stdin ] && [ -p /dev/stdout ]; then
   dd bs=$IN status=none | "$R" "$@" | dd bs=$OUT status=none
@@ -1124,6 +1195,35 @@ fi
 '''
 
 
+RELAY = r'''import os, sys
+k = int(sys.argv[1]); poison = len(sys.argv) > 2
+n = 0
+def log(msg):
+    p = os.environ.get("FRRS_SHIM_LOG")
+    if p:
+        open(p, "a").write(msg + chr(10))
+try:
+    while n < k:
+        b = os.read(0, min(65536, k - n))
+        if not b:
+            break
+        os.write(1, b); n += len(b)
+    if poison:
+        os.write(1, b"\nbogus-command injected by the fault shim\n")
+        while True:
+            b = os.read(0, 65536)
+            if not b:
+                break
+            os.write(1, b)
+        log("relay: everything forwarded after the poison")
+    elif n >= k and "fast-export" not in os.environ.get("FRRS_RELAY_ROLE", ""):
+        log("FAULT fast-import input ends after %d bytes" % n)
+except (BrokenPipeError, OSError):
+    if poison:
+        log("FAULT fast-import died while the tool was still sending")
+'''
+
+
 def make_shim(root):
     d = os.path.join(root, 'shim')
     os.makedirs(d, exist_ok=True)
@@ -1131,6 +1231,7 @@ def make_shim(root):
     p = os.path.join(d, 'git')
     open(p, 'w').write(SHIM.replace('@REAL@', real))
     os.chmod(p, 0o755)
+    open(os.path.join(d, 'relay.py'), 'w').write(RELAY)
     return d
 
 
@@ -1316,6 +1417,82 @@ def sweep_case(case):
             res['failures'].append(('C17', f'{case["mode"]} on {nobj} objects exited with {p.returncode}: {p.stderr.decode("utf-8", "replace")[-200:]}'))
         else:
             count('tool-ok')
+        return res
+    except Exception as e:
+        import traceback
+        res['error'] = f'{type(e).__name__}: {e} {traceback.format_exc()[-300:]}'
+        return res
+    finally:
+        shutil.rmtree(root, ignore_errors=True)
+
+
+# ------------------------------------------------------------------------------------------------
+# C10: faults injected into the real pipeline (the importer dies / rejects the stream / the exporter's output ends early)
+
+def fault_case(case):
+    import random
+    root = tempfile.mkdtemp(prefix='frrs-fault-')
+    res = dict(id=case['id'], failures=[], dist={})
+    def count(k): res['dist'][k] = res['dist'].get(k, 0) + 1
+    try:
+        k = case['id']
+        rnd = random.Random(k * 7331 + case.get('seed', 1))
+        repo = os.path.join(root, 'repo')
+        subprocess.run(['git', 'init', '-q', repo], check=True, env=GIT_ENV, stdout=subprocess.DEVNULL)
+        git(repo, 'config', 'user.name', 'T'); git(repo, 'config', 'user.email', 't@e')
+        n = rnd.choice([40, 150, 400])
+        git(repo, 'fast-import', '--quiet', input=sized_stream(n, rnd.choice([30, 600, 3000]), 1, 3))
+        git(repo, 'symbolic-ref', 'HEAD', 'refs/heads/b0'); git(repo, 'reset', '-q', '--hard')
+        # refs that fast-export emits as `reset <ref>` / `from :N` (a second name on an exported commit), tags of both kinds
+        git(repo, 'branch', 'release', 'b1'); git(repo, 'branch', 'b0-copy', 'b0~3')
+        git(repo, 'tag', 'lw', 'b2~1'); git(repo, 'tag', '-a', '-m', 'annotated', 'v1', 'b1~2')
+        if k % 2 == 1:
+            rc0, _, err0, _ = run_tool(repo, ['--force', '--path-rename', 'd1/:first/'])
+            if rc0 != 0:
+                res['error'] = 'preparatory run failed: ' + err0.decode('utf-8', 'replace')[-200:]
+                return res
+            count('earlier-run-left-its-maps')
+        total = len(export(repo))
+        mode = ['cutimport', 'poisonimport', 'cutexport'][k % 3]
+        cut = rnd.choice([0, 1, 13, 65536, 65537, total - 6, total // 2]) if rnd.random() < 0.3 else rnd.randrange(0, max(1, total - 5))
+        cut = max(0, min(cut, total - 6))
+        opts = [[], ['--path-rename', 'd2/:moved/'], ['--branch-rename', 'b:br-'], ['--tag-rename', 'v:rel-'], ['--path', 'd3/', '--invert-paths'],
+                ['--branch-rename', 'rel:REL', '--path-rename', 'd1/:x/']][rnd.randrange(6)]
+        env = perturbed_env(root, k, mode)
+        env['FRRS_SHIM_CUT'] = str(cut)
+        env['FRRS_SHIM_RC'] = str(rnd.choice([1, 1, 0, 141]))
+        before = dict(refs=refs(repo), head=head_of(repo))
+        try:
+            p = subprocess.run([FR, '--force'] + opts, cwd=repo, stdout=subprocess.PIPE, stderr=subprocess.PIPE, env=env, timeout=600)
+        except subprocess.TimeoutExpired:
+            res['failures'].append(('C17', f'fault {mode} at byte {cut} of {total}: the tool did not finish within 600 s'))
+            return res
+        count('fault-' + mode)
+        count('cut-in-first-pipe-buffer' if cut < 65536 else 'cut-beyond-first-pipe-buffer')
+        try:
+            log = open(os.path.join(root, 'shim.log')).read()
+        except OSError:
+            log = ''
+        faults = [l for l in log.splitlines() if l.startswith('FAULT')]
+        child_failed = True
+        after = dict(refs=refs(repo), head=head_of(repo))
+        what = f'fault {mode} at byte {cut} of {total} (options {opts}, earlier run: {k % 2 == 1}; {"; ".join(faults)})'
+        if not faults:
+            # the importer swallowed the poison or died unnoticed by the relay: only "non-zero exit ⇒ nothing moved" can be judged
+            count('fault-outcome-unknown')
+            if p.returncode != 0:
+                count('unknown-outcome-but-nonzero-exit')
+                if after != before:
+                    res['failures'].append(('C10', f'{what}: the tool exited {p.returncode} but refs or HEAD changed'))
+        elif child_failed or mode == 'cutexport':
+            count('faulted-runs')
+            if p.returncode == 0:
+                res['failures'].append(('C10', f'{what}: the tool exited 0'))
+            if after != before:
+                diff = sorted(set(before['refs'].items()) ^ set(after['refs'].items()))[:3]
+                res['failures'].append(('C10', f'{what}: refs or HEAD changed: {diff}'))
+        else:
+            count('fault-survived-by-the-child')
         return res
     except Exception as e:
         import traceback
